@@ -1150,3 +1150,130 @@ def o12(ctx, rep):
     for fn, k in sorted(total_muts.items()):
         rep.floor("O12 occupancy-map mutation sites in %s (and its private helpers)" % short(fn), k, 2)
     return n
+
+
+# ---- O13 (C03): the WAL covers the hash-table writeout ---------------------------------------------
+
+
+def o13(ctx, rep):
+    """in the sync writer (DB::prepare_sync and its private helpers) every change that the post-meta hash-table writeout will
+    make is first recorded in the WAL blob of this sync, so that a crash inside the writeout can be redone:
+      (a) after MetaMap::set_tombstone every path to the next iteration / return passes WalBlobBuilder::write_clear, and the
+          two are given the same bucket;
+      (b) after MetaMap::set_full every path passes WalBlobBuilder::write_update (recovery re-creates the occupancy byte
+          from the Update entry);
+      (c) a data page is queued for the writeout (a push whose page number comes from data_page_index) only on paths that
+          pass write_update in the same iteration, and write_update is given the bucket data_page_index was given;
+      (d) WalBlobBuilder::reset(sync_seqn) runs before the first entry and finalize() on every success path after one."""
+    from core import trace
+
+    n = 0
+    m = ctx.model
+    facts = ctx.facts
+    W_CLEAR = "nomt::bitbox::wal::write::WalBlobBuilder::write_clear"
+    W_UPDATE = "nomt::bitbox::wal::write::WalBlobBuilder::write_update"
+    W_RESET = "nomt::bitbox::wal::write::WalBlobBuilder::reset"
+    W_FINALIZE = "nomt::bitbox::wal::write::WalBlobBuilder::finalize"
+    for a in (W_CLEAR, W_UPDATE, W_RESET, W_FINALIZE):
+        facts.body(a)  # fail closed (anchor missing) rather than report every change as unrecorded
+    entry = "nomt::bitbox::DB::prepare_sync"
+    bodies = [facts.body(entry)] + [facts.bodies[x] for x in sorted(owned_region(facts, entry)) if facts.bodies[x].kind != "Closure"]
+    seen = {"clear": 0, "update": 0, "data": 0}
+
+    def bucket_roots(body, op):
+        """value identity of a bucket operand: the roots it is computed from (looking through casts and the BucketIndex payload)"""
+        out = set()
+        for r in trace(body, op, deep=True):
+            out.add((r.kind, str(r.what), r.bb, tuple(r.fields)))
+            if r.kind in ("call", "via") and r.obj is not None and str(r.what).rsplit("::", 1)[-1] in ("from", "into", "try_into", "unwrap", "clone"):
+                for a in r.obj.get("args", []):
+                    out |= bucket_roots(body, a)
+        return out
+
+    for body in bodies:
+        loops = m.loops(body)
+        calls = list(body.calls())
+        clears = [(b, t) for b, t in calls if t.get("callee") == W_CLEAR]
+        updates = [(b, t) for b, t in calls if t.get("callee") == W_UPDATE]
+        tombs = [(b, t) for b, t in calls if t.get("callee") == "nomt::bitbox::meta_map::MetaMap::set_tombstone"]
+        fulls = [(b, t) for b, t in calls if t.get("callee") == "nomt::bitbox::meta_map::MetaMap::set_full"]
+        datas = []
+        for b, t in calls:
+            c = t.get("callee") or ""
+            if c.rsplit("::", 1)[-1] in ("push", "insert", "push_back", "extend") and len(t["args"]) >= 2:
+                idx = [r for a in t["args"][1:] for r in trace(body, a, deep=True) if r.kind == "call" and str(r.what).endswith("::data_page_index")]
+                if not idx:
+                    # the tuple (pn, page): look through the aggregate
+                    for a in t["args"][1:]:
+                        for r in trace(body, a):
+                            if r.kind == "agg" and r.obj is not None:
+                                for o in r.obj.get("ops", []):
+                                    idx += [x for x in trace(body, o, deep=True) if x.kind == "call" and str(x.what).endswith("::data_page_index")]
+                if idx:
+                    datas.append((b, t, idx))
+
+        def iteration_targets(b):
+            inner = None
+            cands = [(h, blk) for (h, blk, lat) in loops if b in blk]
+            if cands:
+                inner = min(cands, key=lambda x: len(x[1]))
+            return (set(body.return_blocks()) | ({inner[0]} if inner else set())), inner
+
+        def followed(b, gates):
+            targets, _inner = iteration_targets(b)
+            rem = set(body.ok_removed()) | set(gates)
+            return not (body.reachable([x for x in body.succ(b) if x not in rem], rem) & targets)
+
+        def preceded(b, gates):
+            """every path from the start of the iteration (or the function) to b passes a gate"""
+            _t, inner = iteration_targets(b)
+            start = inner[0] if inner else 0
+            gs = set(gates)
+            if b in gs:
+                return True
+            return b not in body.reachable([start], gs)
+
+        for (b, t) in tombs:
+            n += 1
+            seen["clear"] += 1
+            cb = [x for (x, _t) in clears]
+            ok = followed(b, cb) or preceded(b, cb)
+            rep.check(ok, "O13", short(body.id), "set_tombstone=>write_clear", "after MetaMap::set_tombstone at %s a path reaches the next iteration / return without a WAL Clear entry: a crash inside the post-meta writeout leaves the bucket occupied for ever" % t.get("ln"), site=t.get("ln"), detail="set_tombstone at %s is paired with write_clear on every path" % t.get("ln"))
+            if ok and clears:
+                n += 1
+                same = any(bucket_roots(body, t["args"][1]) & bucket_roots(body, ct["args"][1]) for (_cb, ct) in clears if len(ct["args"]) > 1 and len(t["args"]) > 1)
+                rep.check(same, "O13", short(body.id), "write_clear(same bucket)", "the WAL Clear entry does not name the bucket that set_tombstone at %s clears" % t.get("ln"), site=t.get("ln"), detail="write_clear and set_tombstone are given the same bucket value")
+        for (b, t) in fulls:
+            n += 1
+            ub = [x for (x, _t) in updates]
+            ok = followed(b, ub) or preceded(b, ub)
+            rep.check(ok, "O13", short(body.id), "set_full=>write_update", "after MetaMap::set_full at %s a path reaches the next iteration / return without a WAL Update entry: recovery could not re-create the bucket" % t.get("ln"), site=t.get("ln"), detail="set_full at %s is paired with write_update on every path" % t.get("ln"))
+        for (b, t, idx) in datas:
+            n += 1
+            seen["data"] += 1
+            ub = [x for (x, _t) in updates]
+            ok = preceded(b, ub) or followed(b, ub)
+            rep.check(ok, "O13", short(body.id), "data-page=>write_update", "a data page is queued for the hash-table writeout at %s on a path without a WAL Update entry in the same iteration: a crash inside the writeout could tear the page with nothing to redo it from" % t.get("ln"), site=t.get("ln"), detail="the push at %s is paired with write_update on every path" % t.get("ln"))
+            if ok and updates:
+                n += 1
+                want = set()
+                for r in idx:
+                    if r.obj is not None and r.obj.get("args"):
+                        want |= bucket_roots(body, r.obj["args"][-1])
+                same = any(want & bucket_roots(body, ut["args"][-1]) for (_ub, ut) in updates if ut["args"])
+                rep.check(same, "O13", short(body.id), "write_update(same bucket)", "the WAL Update entry does not name the bucket whose data page is queued at %s" % t.get("ln"), site=t.get("ln"), detail="write_update and data_page_index are given the same bucket value")
+        seen["update"] += len(updates)
+        ent = clears + updates
+        if ent:
+            resets = [x for x, t in calls if t.get("callee") == W_RESET]
+            fins = [x for x, t in calls if t.get("callee") == W_FINALIZE]
+            if body.id == entry or resets or fins:
+                n += 1
+                rep.check(bool(resets) and all(any(body.dominates(r, e) for r in resets) for (e, _t) in ent), "O13", short(body.id), "reset-first", "a WAL entry can be written before WalBlobBuilder::reset(sync_seqn): the blob would carry entries of another sync or the wrong sequence number", site=body.span, detail="reset at bb%s dominates every entry" % resets)
+                n += 1
+                rem = set(body.ok_removed()) | set(fins)
+                bad = [e for (e, _t) in ent if body.reachable([x for x in body.succ(e) if x not in rem], rem) & set(body.ok_returns())]
+                rep.check(bool(fins) and not bad, "O13", short(body.id), "finalize-last", "prepare_sync can return Ok after writing WAL entries without WalBlobBuilder::finalize(): the blob has no terminator / padding and recovery reads garbage", site=body.span, detail="finalize at bb%s on every success path after an entry" % fins)
+    rep.floor("O13 set_tombstone sites paired with the WAL", seen["clear"], 1)
+    rep.floor("O13 data-page pushes paired with the WAL", seen["data"], 1)
+    return n
